@@ -168,6 +168,14 @@ func c08D08b(c *c08Run) {
 		ctx.Tag("d08b:dense")
 		c.pair(v, t, true)
 	}
+	// the witnesses of `C08.idempotent_counterexample` and `C08.conforming_converts_to_itself_counterexample`
+	ctx.Tag("d08b:witness")
+	c.pair(cty.TupleVal([]cty.Value{
+		cty.MapVal(map[string]cty.Value{"m": cty.ListVal([]cty.Value{cty.StringVal("x")})}),
+		cty.MapValEmpty(cty.List(cty.String)),
+	}), cty.List(cty.Map(cty.List(cty.DynamicPseudoType))), true)
+	c.pair(cty.ListVal([]cty.Value{cty.ListValEmpty(cty.Map(cty.Bool)), cty.ListVal([]cty.Value{cty.MapVal(map[string]cty.Value{"k": cty.True})})}),
+		cty.List(cty.List(cty.Map(cty.DynamicPseudoType))), true)
 	// unknown sets with length bounds through set -> set / list, each with a concrete set the
 	// range admits whose members coalesce under the element conversion
 	coalescing := []cty.Value{cty.StringVal("1"), cty.StringVal("1.0"), cty.StringVal("01"), cty.StringVal("1e0")}
